@@ -267,7 +267,12 @@ func runC05(c *Ctx, r *Report, tier string) {
 	var snapMap ssa.Value
 	for _, b := range c.blocks(ip) {
 		if iff, ok := b.Instrs[len(b.Instrs)-1].(*ssa.If); ok {
-			if lk, ok := c.resolve(iff.Cond).(*ssa.Lookup); ok && c.term(lk.X) == "makemap[map[*Option]bool]" {
+			cv := c.resolve(iff.Cond)
+			if ex, isEx := cv.(*ssa.Extract); isEx {
+				// `_, present := explicit[opt]`: the writer below stores only true, so presence is the value
+				cv = c.resolve(ex.Tuple)
+			}
+			if lk, ok := cv.(*ssa.Lookup); ok && c.term(lk.X) == "makemap[map[*Option]bool]" {
 				if _, req := c.Requires(ip, isInstr(iff), litHas(true, "IniParser.ParseAsDefaults(P0)"), nil); req {
 					snapMap = c.resolve(lk.X)
 				}
